@@ -1,5 +1,5 @@
 CONSTANT Mechanism = "native"
-CONSTANTS LoopTargetsSupported = TRUE  WithRewritten = TRUE  FallOffRewritten = TRUE
+CONSTANTS LoopTargetsSupported = TRUE  WithRewritten = TRUE  FallOffRewritten = TRUE  MatchCapturesKnown = TRUE
 INIT InitX
 NEXT Next
 CONSTRAINT Collect
